@@ -13,3 +13,5 @@ import AikenVerif.Props.C13
 import AikenVerif.Props.C10
 import AikenVerif.Props.C04
 import AikenVerif.Props.C07
+import AikenVerif.Props.C17
+import AikenVerif.Props.C09
